@@ -115,8 +115,27 @@ class Decider(object):
             else:
                 yield c, env
 
-    def decide(self, conds):
+    def decide(self, conds, fn=None):
         """Returns ('dead', why) | ('reachable', witness) | ('no-argument', why)."""
+        # locals of the function that are plain aliases of table values (`float_size = m.modifs[sd]`, assigned exactly once): bound per row before the guards are evaluated
+        aliases = []
+        if fn is not None:
+            assigned = {}
+            for n_ in walk_no_nested(fn):
+                if isinstance(n_, ast.Assign):
+                    for t_ in n_.targets:
+                        for x_ in ast.walk(t_):
+                            if isinstance(x_, ast.Name):
+                                assigned.setdefault(x_.id, []).append(n_)
+                elif isinstance(n_, (ast.AugAssign, ast.For, ast.With)):
+                    tg_ = getattr(n_, 'target', None)
+                    for x_ in (ast.walk(tg_) if tg_ is not None else ()):
+                        if isinstance(x_, ast.Name):
+                            assigned.setdefault(x_.id, []).append(n_)
+            used = set(x_.id for t_, _ in conds for x_ in ast.walk(t_) if isinstance(x_, ast.Name))
+            for nm_, sts_ in assigned.items():
+                if nm_ in used and len(sts_) == 1 and isinstance(sts_[0], ast.Assign) and len(sts_[0].targets) == 1 and isinstance(sts_[0].targets[0], ast.Name):
+                    aliases.append((nm_, sts_[0].value))
         atoms = []
         for t, pol in conds:
             atoms += conjuncts(t, pol)
@@ -132,6 +151,12 @@ class Decider(object):
         witness = None
         for c, env in self.envs(want_dib):
             ev = Evaluator(env)
+            for nm_, expr_ in aliases:
+                if nm_ not in env:
+                    try:
+                        env[nm_] = ev.ev(expr_)
+                    except (NotConst, Exception):
+                        pass
             ok = True
             n_eval = 0
             for t, pol in atoms:
@@ -179,7 +204,7 @@ def check_sites(R, mod, fn, qual, decider, allowed_exc=(), caught_exc=(), specia
                 else:
                     R.violation(inst, key, '%s in %s is reachable: %s' % ('assert-unreachable name' if kind == 'belief' else 'raise', qual, why), where(mod, node))
                 continue
-        verdict, why = decider.decide(conds)
+        verdict, why = decider.decide(conds, fn)
         if verdict == 'dead':
             R.ok(inst, sample='%s dead: %s' % (key, why))
         elif verdict == 'reachable':
@@ -300,7 +325,7 @@ def run(ctx, report):
         for n in c10_common.unintended_unbound(ctx, arch, fn):
             # `name` in the final else of _dis is only evaluated when that raise is reached (reported above if live)
             conds = path_conditions(n, fn)
-            verdict, why = D.decide(conds) if conds else ('no-argument', '')
+            verdict, why = D.decide(conds, fn) if conds else ('no-argument', '')
             if verdict != 'dead':
                 R1.violation(q, '%s:unbound:%s' % (q, n.id), '%s reads the unbound name %r (NameError)' % (q, n.id), where(arch, n))
 
@@ -534,7 +559,7 @@ def run(ctx, report):
                 R3.ok(key, sample='%s: documented ValueError' % q, nontrivial=(n_sites == 1))
                 continue
             conds = path_conditions(node, fn)
-            verdict, why = D.decide(conds) if conds else ('no-argument', 'unguarded')
+            verdict, why = D.decide(conds, fn) if conds else ('no-argument', 'unguarded')
             if verdict == 'dead':
                 R3.ok(key, sample='%s dead: %s' % (key, why))
             else:
